@@ -79,7 +79,7 @@ func c04Product(r *Run, local string, src uint32) {
 	amounts := []*big.Int{big.NewInt(1), big.NewInt(2), m1(64), bigPow2(64), new(big.Int).Add(bigPow2(64), big.NewInt(1)), bigPow2(128), bigPow2(255)}
 	recips := [][]byte{distinct32(0x10), distinct32(0x83), pad32(UserA.Addr),
 		pad32(append([]byte{0, 0}, bytes.Repeat([]byte{0x5A}, 18)...)), // 20-byte address that itself starts with zero bytes
-		append(bytes.Repeat([]byte{0xEE}, 12), UserB.Addr...)}       // non-zero high 12 bytes
+		append(bytes.Repeat([]byte{0xEE}, 12), UserB.Addr...)}          // non-zero high 12 bytes
 	// a recipient whose high 12 bytes are non-zero and differ: [0:20] != [12:32]
 	for _, fresh := range []bool{false, true} {
 		scn := c04Scenario(local, fresh)
